@@ -63,8 +63,10 @@ def shards(tier):
     out.append({"buf": 8192, "kind": "vhdx-locate"})
     for buf in bufs[:2] if q else bufs:
         for mech in ("vmdk-hosted", "vmdk-sesparse", "vmdk-multi", "hdd", "hdd-top", "hdd-topdefault", "hdd-plainbase",
-                     "qcow2", "qcow2-ext", "vdi"):
+                     "qcow2", "qcow2-ext", "vdi", "vdi-mixed"):
             for depth in (1, 2, 3):
+                if mech == "vdi-mixed" and depth == 1:
+                    continue
                 W = 3 if depth < 3 else 2
                 if not q and depth == 3 and mech in ("vdi", "qcow2", "vmdk-hosted"):
                     W = 3
@@ -93,7 +95,11 @@ def run_shard(shard, ctx):
         for pat in itertools.product("AB", repeat=6):
             for bpos in (0, 3, 6):
                 for backing in (True, False):
-                    _case_qsnap_seq({"kind": "qcow2-snap-seq", "pattern": "".join(pat), "bpos": bpos, "backing": backing}, ctx)
+                    # layouts: mixed allocation / every cluster stored and host-contiguous (a view's next run starts exactly
+                    # where its previous one ended); data in the image itself / in an external data file
+                    for layout, datafile in (("mixed", False), ("contig", False), ("contig", True), ("mixed", True)):
+                        _case_qsnap_seq({"kind": "qcow2-snap-seq", "pattern": "".join(pat), "bpos": bpos, "backing": backing,
+                                         "layout": layout, "datafile": datafile}, ctx)
     elif kind == "locate":
         _shard_locate(shard, ctx)
     else:
@@ -405,10 +411,20 @@ def _case_vhdx_locate(case, ctx, d):
 # ---- generic depth-1..3 chains for VMDK / Parallels / QCOW2 / VDI -------------------------------------------------------
 ALPHA = {"vmdk-hosted": [HOLE, ZERO, DATA], "vmdk-sesparse": [HOLE, ZERO, "F", DATA], "vmdk-multi": [HOLE, ZERO, DATA],
          "hdd": [HOLE, DATA], "hdd-top": [HOLE, DATA], "hdd-topdefault": [HOLE, DATA], "hdd-plainbase": [HOLE, DATA],
-         "qcow2": ["U", "Z", "N", "C"], "qcow2-ext": ["u", "a", "z"], "vdi": [HOLE, ZERO, DATA]}
+         "qcow2": ["U", "Z", "N", "C"], "qcow2-ext": ["u", "a", "z"], "vdi": [HOLE, ZERO, DATA],
+         "vdi-mixed": [HOLE, ZERO, DATA]}
 UNIT = {"vmdk-hosted": 4096, "vmdk-sesparse": 4096, "vmdk-multi": 4096, "hdd": 4096, "hdd-top": 4096,
         "hdd-topdefault": 4096, "hdd-plainbase": 4096, "qcow2": 4096, "qcow2-ext": 512,
-        "vdi": 4096}
+        "vdi": 4096, "vdi-mixed": 4096}
+
+
+def _mixed_layer(st, k, unit):
+    """vdi-mixed: the layers of one chain use different block sizes (2x, 1x, 1/2x the unit, rotating); the W state tokens of
+    a layer are laid over its own blocks (4 units of guest data)."""
+    bs = (2 * unit, unit, unit // 2)[k % 3]
+    n = 4 * unit // bs
+    toks = list(st) + list(st)[::-1] + list(st)
+    return bs, [toks[(j * 5 + k) % len(toks)] if n > len(st) else toks[j] for j in range(n)]
 
 
 def _shard_chain(shard, ctx):
@@ -450,7 +466,13 @@ def _case_chain(case, ctx, d, cache):
     size = W * unit
     # reference model: fold top-down
     disk = None
-    if mech == "qcow2-ext":
+    if mech == "vdi-mixed":
+        size = 4 * unit
+        W = 4
+        for k, st in enumerate(layers):
+            bs, sts = _mixed_layer(st, k, unit)
+            disk = GuestDisk(size, bs, _to_model_states(mech, sts), k + 1, disk)
+    elif mech == "qcow2-ext":
         for k, st in enumerate(layers):
             sub = list(st) + ["u"] * (32 - W)
             disk = GuestDisk(16384, 16384, [DATA], k + 1, disk, {0: _to_model_states(mech, sub)})
@@ -655,6 +677,18 @@ def _open_chain(mech, layers, d, cache, unit):
                                  backing_name=f"l{k - 1}.qcow2" if k else None)
             q = QCow2(img.bytesio(), backing_file=q) if k else QCow2(img.bytesio())
         return q, None, (lambda: None)
+    if mech == "vdi-mixed":
+        from dissect.hypervisor.disk.vdi import VDI
+
+        from mc.builders import vdi as B
+
+        v = None
+        for k, st in enumerate(layers):
+            bs, sts = _mixed_layer(st, k, unit)
+            img = B.build(sts, _slots_for(sts, k, (DATA,)), bs, layer=k + 1, image_type=4 if k else 1,
+                          parent_uuid=b"\x11" * 16 if k else b"")
+            v = VDI(img.bytesio(), parent=v) if k else VDI(img.bytesio())
+        return v, None, (lambda: None)
     if mech == "vdi":
         from dissect.hypervisor.disk.vdi import VDI
 
@@ -692,7 +726,7 @@ def _shard_qsnap(shard, ctx):
     for active in per:
         for s1 in per:
             for s2 in (per[0], per[4], per[8]):
-                for short_l1 in (False, True):
+                for short_l1 in (False, True, "stale"):
                     for prime in (False, True):
                         for at0 in (False, True):
                             if at0 and short_l1:
@@ -725,7 +759,9 @@ def _case_qsnap(case, ctx):
     sdefs = []
     for n, st in enumerate(snaps):
         sdefs.append({"states": st, "slots": slots_of(st, n + 1), "id": str(n + 1), "name": f"snap-{n}", "layer": n + 2,
-                      "window_at": at, "l1_size": 1 if (case["short_l1"] and n == 0) else None})
+                      "window_at": at, "l1_size": 1 if (case["short_l1"] and n == 0) else None,
+                      # the rest of the snapshot's L1 cluster still holds the entries of a longer table
+                      "l1_stale": case["short_l1"] == "stale"})
     backing = case.get("backing")
     img, _ = B.build(active, slots_of(active, 0), cb, 3, None, at, total, snapshots=sdefs,
                      backing_name="base.raw" if backing else None)
@@ -798,10 +834,14 @@ def _case_qsnap_seq(case, ctx):
     cs, W = 512, 8
     act = ["U", "N", "U", "U", "N", "U", "Z", "U"]
     snp = ["N", "U", "U", "N", "U", "U", "U", "N"]
+    if case.get("layout") == "contig":
+        act = ["N"] * W
+        snp = ["N"] * 5 + ["U", "N", "N"]
     sl = lambda st, base: [base + i if x == "N" else None for i, x in enumerate(st)]  # noqa: E731
     backing = case["backing"]
-    img, _ = B.build(act, sl(act, 0), 9, 3, W * cs - 100, snapshots=[{"states": snp, "slots": sl(snp, W), "layer": 2}],
-                     backing_name="b.raw" if backing else None)
+    datafile = bool(case.get("datafile"))
+    img, dimg = B.build(act, sl(act, 0), 9, 3, W * cs - 100, snapshots=[{"states": snp, "slots": sl(snp, W), "layer": 2}],
+                        backing_name="b.raw" if backing else None, data_file=datafile)
     parent = GuestDisk(W * cs - 100, cs, [DATA] * W, 9) if backing else None
     models = [StreamModel(B.model(act, 9, W * cs - 100, layer=1, parent=parent)),
               StreamModel(B.model(snp, 9, W * cs - 100, layer=2, parent=parent))]
@@ -811,6 +851,8 @@ def _case_qsnap_seq(case, ctx):
     ctx.nontrivial += 1
     with ctx.watch(case):
         kw = {"backing_file": TrapBytesIO(pattern.span(9, 0, W * cs - 100))} if backing else {}
+        if datafile:
+            kw["data_file"] = dimg.bytesio()
         q = QCow2(img.bytesio(), **kw)
         views = [q, q.snapshots[0].open()]
         views[1].seek(case["bpos"] * cs + 7)
